@@ -418,8 +418,8 @@ func derIntContent(x *big.Int) []byte {
 }
 
 func tlv(tag byte, content []byte) []byte { return cat([]byte{tag}, derLen(len(content)), content) }
-func derInt(x *big.Int) []byte             { return tlv(2, derIntContent(x)) }
-func derSig(r, s *big.Int) []byte          { return tlv(0x30, cat(derInt(r), derInt(s))) }
+func derInt(x *big.Int) []byte            { return tlv(2, derIntContent(x)) }
+func derSig(r, s *big.Int) []byte         { return tlv(0x30, cat(derInt(r), derInt(s))) }
 
 // nonMinimalLen gives a long-form length where a shorter form exists.
 func nonMinimalLen(n int) []byte {
